@@ -297,7 +297,8 @@ def oracle_tables(dh_calls):
     return coq_list(dh_rows), coq_list(dec_rows), coq_list(u8_rows), ok
 
 
-FROM_LINES = [b"From a@b.c Mon Jan  1 00:00:00 2024", b"From a 2024", b"From  a 2024", b"From a 202", b"From 2024", b"From 12024",
+FROM_LINES = [b"From a@b.c Mon Jan  1 00:00:00 2024", b"From - Mon Jan 01 00:00:00 2024", b"From a@b.c Mon Jan  1 00:00:00 +0100 2024",
+              b"From a@b.c Mon Jan  1 00:00:00 2024 remote from host", b"From MAILER-DAEMON Mon Jan  1 00:00:00 2024 ", b"From a 2024", b"From  a 2024", b"From a 202", b"From 2024", b"From 12024",
               b"From a@b.c 2024 ", b"From a@b.c 2024\r", b"From a@b.c 2024\r\r", b">From a 2024", b" From a 2024", b"from a 2024",
               b"From\ta 2024", b"From \ta 2024", b"From a\t2024", b"From a 20245", b"From a x2024", b"From a 2024x", b"From: a@b.c 2024",
               b"From \x0ba 2024", b"From \xa0a 2024", b"From a \xb2024", b"From a 2024\x0c", b"FROM a 2024", b"From a 1999\r",
@@ -412,7 +413,9 @@ def run(ctx):
         "C16_unfold_inverts_folding", "C16_decode_fallback", "C16_address_list",
         "C16_full_text_plain_else_html", "C16_attachment_routing", "C16_attachment_same_as_alone", "C16_attachments_independent",
         "C16_attachment_contribution_context_free", "C16_msg_recipient_angle", "C16_msg_recipients_split", "C16_msg_quoted_comma_refuted",
-        "C16_msg_body_mapping", "C16_eml_attachments_count", "C16_mbox_date_field"])
+        "C16_msg_body_mapping", "C16_eml_attachments_count", "C16_mbox_date_field",
+        "C16_from_line_sound", "C16_from_line_complete", "C16_mbox_any_quoting_one_per_message", "C16_mboxo_one_per_message",
+        "C16_mbox_mmdf_delimiters_kept_refuted"])
     ctx.prove("C16/Inst.v", ["Gen/C16Tables.vo", "C16/Corr.vo"], expected=[
         "C16_tables_wf", "C16_mime_fallback_ok", "C16_fallback_paths_lower_case", "C16_from_pattern_is_modelled",
         "C16_fold_pattern_is_modelled", "C16_literals"])
@@ -455,6 +458,12 @@ def run(ctx):
         nsep = len(MB.MBOX_FROM_PATTERN.findall(b))
         if len(got) > nsep:
             ctx.finding("split-more-messages-than-separators", f"{len(got)} messages from {nsep} separator lines", {"mbox": b})
+    mm = b"".join(b"\x01\x01\x01\x01\nFrom a@b Mon Jan  1 00:00:00 2024\nSubject: %d\n\nbody %d\n\x01\x01\x01\x01\n" % (i, i) for i in range(2))
+    got_mm = MB._split_mbox_messages(mm)
+    boxes.append(mm)
+    bc.append(pair(coq_bytes(mm), coq_list([coq_bytes(x) for x in got_mm])))
+    ctx.case(("mbox", "mmdf"), True, kind="split:mmdf")
+    ctx.extra["mmdf_delimiters_come_back_inside_messages"] = all(b"\x01" in x for x in got_mm)   # theorem C16_mbox_mmdf_delimiters_kept_refuted on the real code (MMDF is not the mbox format: no finding)
     corr("mbox_split", "split_case", bc, boxes, "str * list str", shard=250)
 
     # ---- D2: _unfold_header
@@ -491,6 +500,9 @@ def run(ctx):
         if sp.get("no_date"):
             raw = re.sub(rb"(?m)^Date: .*\n", b"", raw, count=1)
             sp["date"] = None
+        if rng.random() < 0.05:          # Subject is optional in RFC 5322
+            raw = re.sub(rb"(?m)^Subject:.*\n(?:[ \t].*\n)*", b"", raw, count=1)
+            sp["subject"] = ""
         specs.append((sp, raw))
     ctx.extra["generator_lossy_discarded"] = lossy
     # a forwarded message attached as message/rfc822 below an HTML-only body
@@ -920,8 +932,60 @@ def run(ctx):
                 ctx.case(("msg-fixture-record", fx), True, kind="msg:fixture-record")
     except Exception as e:  # noqa
         ctx.obligation("msg-fixture-record", False, repr(e))
+    # generated .msg files (root-level property streams written with the CFB writer): field oracle + the same record mapping
+    def msg_record_case(fb, label):
+        rec = MsOxMessage(io.BytesIO(fb))
+        out = list(MS.read_msg_format_mail(io.BytesIO(fb)))[0]
+        aslist = lambda v: [] if not v else (list(v) if isinstance(v, list) else [v])
+        body = rec.body or ""
+        if all(isinstance(x, str) for x in aslist(rec.sender) + aslist(rec.to)) and not out.attachments:
+            fc.append(f"({coq_list([coq_str(x) for x in aslist(rec.sender)])}, {coq_list([coq_str(x) for x in aslist(rec.to)])}, {coq_str(body)}, "
+                      f"{coq_str(body.lstrip().lower())}, {coq_str(MS._html_to_text(body))}, [], "
+                      f"({pair(coq_str(out.from_email.name), coq_str(out.from_email.address))}, {c_pairs([(e.name, e.address) for e in out.to_emails])}, "
+                      f"{coq_str(out.body_plain)}, {coq_str(out.body_html)}, []))")
+            finfo.append(label)
+        return out
+
+    for k in range(ctx.n(40, 400)):
+        try:
+            msp, mraw = G.gen_msg_spec(rng)
+        except Exception:  # noqa
+            continue
+        ctx.case(("msg-generated", mraw[:64], k), True, kind="msg:generated")
+        mrep = lambda field, got, want: {"format": "msg", "field": field, "got": got, "want": want, "msg_b64": base64.b64encode(mraw).decode("ascii")}
+        try:
+            out = msg_record_case(mraw, f"generated-{k}")
+        except Exception as ex:  # noqa
+            why = repr(getattr(ex, "__cause__", None) or ex)
+            key = ("msg:missing-subject-fails" if msp["no_subject"] and "strip" in why else
+                   "msg:missing-date-fails" if msp["no_date"] and "date" in why.lower() else f"msg:fails:{msp['charset']}")
+            ctx.finding(key, f".msg extraction fails ({why}) for a message " + ("without Subject" if msp["no_subject"] else "without Date header" if msp["no_date"] else ""),
+                        mrep("extract", why, "an EmailContent"))
+            continue
+        cm = canon_mail(out)
+        if cm["subject"] != ("" if msp["no_subject"] else msp["subject"].strip()):
+            ctx.finding(f"msg:subject:{msp['charset']}", f"msg: subject {cm['subject']!r} instead of {msp['subject']!r}", mrep("subject", cm["subject"], msp["subject"]))
+        if (cm["msgid"] or "") != ("" if msp["no_msgid"] else msp["msgid"]):
+            ctx.finding("msg:msgid", f"msg: message id {cm['msgid']!r} instead of {msp['msgid']!r}", mrep("msgid", cm["msgid"], msp["msgid"]))
+        if msp["date"] is not None and not iso_equal(cm["date"], msp["date"], True):
+            ctx.finding(f"msg:date:{msp.get('date_style')}", f"msg: date {cm['date']!r} instead of {msp['date'].isoformat()!r}", mrep("date", cm["date"], msp["date"].isoformat()))
+        for field, got, want in (("from", [tuple(cm["from"])], [tuple(msp["from"])]), ("cc", [tuple(x) for x in cm["cc"]], [tuple(x) for x in msp["cc"]])):
+            if got != want:
+                torn = any(("," in n or ";" in n) for n, _ in want)
+                ctx.finding("msg-recipient-quoted-comma" if torn else f"msg:{field}", f"msg: {field} {got!r} instead of {want!r}"
+                            + (" (display name with a comma / semicolon is cut apart)" if torn else ""), mrep(field, got, want))
+        if [n for n, _ in cm["to"]] != msp["display_to"]:
+            ctx.finding("msg:display-to", f"msg: to names {[n for n, _ in cm['to']]!r} instead of {msp['display_to']!r}", mrep("to", cm["to"], msp["display_to"]))
+        if msp["msg_html"]:
+            if cm["html"] != msp["html"] or not cm["plain"]:
+                ctx.finding("msg:html-body", f"msg: HTML body {cm['html'][:60]!r} / text {cm['plain'][:40]!r} for {msp['html'][:60]!r}", mrep("html", cm["html"], msp["html"]))
+        elif nl(cm["plain"]) != nl(msp["plain"]) or cm["html"]:
+            looks = MS._looks_like_html(msp["plain"])
+            ctx.finding("msg:plain-body-taken-for-html" if looks else "msg:plain-body", f"msg: plain body {cm['plain'][:60]!r} (html {cm['html'][:30]!r}) instead of {msp['plain'][:60]!r}",
+                        mrep("plain", cm["plain"], msp["plain"]))
+
     corr("msg_mapping", "msg_case", fc, finfo,
-         "list str * list str * str * str * str * list (str * str * str * str) * ((str * str) * list (str * str) * str * str * list (str * str))", shard=10)
+         "list str * list str * str * str * str * list (str * str * str * str) * ((str * str) * list (str * str) * str * str * list (str * str))", shard=60)
 
     corr("attachment_lists", "(att_list_case T)", list_cases, list_info,
          "list (str * str) * list (str * option str) * list (str * str * bool) * option (list (C07.Model.extractor * str))", shard=200)
@@ -985,5 +1049,9 @@ META = {
                   "generated messages compared field by field with the generator's specs, .eml against .mbox, not proved.",
     "level_note": "Trusted: Coq kernel+VM; the G-dump printer; the hand-written models (validated differentially on recorded "
                   "oracle values); the stdlib generator and the lossless filter as source of ground truth; .msg only through "
-                  "the two fixtures.",
+                  "the two fixtures plus generated files with root-level property streams (subject, transport headers, message id, "
+                  "body/HTML, DisplayTo). Outside the machinery: .msg attachments, recipient tables and the DeliverTime property "
+                  "(nested storages / fixed-size property entries are not produced by the CFB writer: fixtures only); all decoding "
+                  "done inside mailparser (.eml) and msg_parser; re.IGNORECASE of the HTML hint regex beyond ASCII case folding; MMDF "
+                  "mailboxes are not the mbox format (theorem C16_mbox_mmdf_delimiters_kept_refuted states what happens to them).",
 }
